@@ -151,10 +151,21 @@ CHECKS.update({
   'note': 'qsort recursion is cut by an induction stub on strictly smaller arrays (meta-argument). Sortedness + permutation for unbounded nmemb needs multiset reasoning over a function-pointer '
           'comparator and is outside CBMC contracts: bounded. errno of strtol/strtoimax is not checked. Host limits/stdlib headers, shim ctype.'},
 })
+CHECKS.update({
+ 'C15': {
+  'text': 'Every sline_* function is proved against a reference editor (spec/c15_editor_ref.h: line tracked at one arbitrary ghost index) for every capacity >= 2, length and cursor: content, '
+          '0 <= cursor <= length < capacity, frame = buf[0..cap) and the three counters, including the bulk insert for every int length and the terminating accessor. readline_putchar is proved as '
+          'a one-call refinement (RL invariant and REL before => same return code, RL and REL after) per key class; history push/recall lemma harnesses (enter A, B; up, up, down, down) and index '
+          'arithmetic; vterm_automate_newdata: the line handed to execute equals the reference line at the reference NEWLINE, every (ptr,len) handed to write lies inside the line buffer / a literal / '
+          'the local buf[16]; vt100_left fits buf[16] for every 32-bit argument; igris::sline wrappers via extraction. The VT100 screen clause is a BOUNDED stand-in (cap <= 8, one key step).',
+  'ref': 'C15', 'technique': 'CBMC contracts against a reference editor (ghost-index content), dfcc replacement of memmove/memcpy/readline_putchar by contract; one-step refinement per key class',
+  'note': 'Composition of the one-call lemmas over a key stream is by induction (not machine-checked). History geometry: capacity symbolic with depth in {0,1,2,3}, or depth symbolic 1..255 with '
+          'capacity in {2,3} (a product of two symbolic factors does not finish on any back end). igris::readline / igris::vterm (C++ re-implementations) are not under contract.'},
+})
 WIP = 'no proof unit built yet in this session (work in progress; see DESIGN.md for the planned contracts)'
 NOT_APPLICABLE = {
  
- 'C15': WIP, 'C19': WIP,
+ 'C19': WIP,
  'C09': 'quantifies over a family of C++ types assembled by template metaprogramming (partial specialisations, SFINAE, '
         'concepts, std::tuple/map/string, virtual archives); CBMC has no usable C++ front end and the mechanical C '
         'extraction deliberately excludes templates-over-types, so no contract on the real code can state it',
